@@ -117,9 +117,12 @@ package hevc
 // sps_max_dec_pic_buffering_minus1 / sps_max_num_reorder_pics / sps_max_latency_increase_plus1 are read for
 //   i = (sps_sub_layer_ordering_info_present_flag ? 0 : sps_max_sub_layers_minus1) .. sps_max_sub_layers_minus1
 // st_ref_pic_set(i) is read num_short_term_ref_pic_sets times; the VUI only when vui_parameters_present_flag is set
+// (every decode goes into a zero H265RawSPS: separate_colour_plane_flag and the VUI timing fields are written only when
+// present and read unconditionally by Width / Height / FrameRate)
+//@ spec func sps5Zeroed(sps *H265RawSPS) bool = sps.Separate_colour_plane_flag == 0 && sps.Vui.Vui_num_units_in_tick == 0 && sps.Vui.Vui_time_scale == 0
 //@ func (sps *H265RawSPS) Decode(data []byte) (err error)
 //@   recovers
-//@   requires sps != nil
+//@   requires sps != nil && sps5Zeroed(sps)
 //@   modifies all()
 //@   local r *bits.Reader
 //@   local i uint8
@@ -205,3 +208,21 @@ package hevc
 //@   loop 5: modifies vps.Hrd_layer_set_idx[:], vps.Cprms_present_flag[:], vps.Hrd_parameters[:], *r, err
 //@   loop 5: invariant vps == old(vps) && r != nil && len(vps.Layer_id_included_flag) <= 1024 && (len(vps.Hrd_parameters) <= 1024 || sameHdr(vps.Hrd_parameters, old(vps.Hrd_parameters))) && (len(vps.Hrd_layer_set_idx) <= 1024 || sameHdr(vps.Hrd_layer_set_idx, old(vps.Hrd_layer_set_idx))) && (len(vps.Cprms_present_flag) <= 1024 || sameHdr(vps.Cprms_present_flag, old(vps.Cprms_present_flag)))
 //@   ensures err == nil ==> len(vps.Layer_id_included_flag) <= 1024 && (len(vps.Hrd_parameters) <= 1024 || sameHdr(vps.Hrd_parameters, old(vps.Hrd_parameters))) && (len(vps.Hrd_layer_set_idx) <= 1024 || sameHdr(vps.Hrd_layer_set_idx, old(vps.Hrd_layer_set_idx))) && (len(vps.Cprms_present_flag) <= 1024 || sameHdr(vps.Cprms_present_flag, old(vps.Cprms_present_flag)))
+
+//@ import "github.com/cnotch/ipchub/av/codec"
+//@ func (sps *H265RawSPS) FrameRate() (f float64)
+//@   trusted
+//@   requires sps != nil
+//@   modifies
+//@ func (sps *H265RawSPS) IsFixedFrameRate() (b bool)
+//@   trusted
+//@   requires sps != nil
+//@   modifies
+//@ func MetadataIsReady(vm *codec.VideoMeta) (ok bool)
+//@   requires vm != nil
+//@   modifies all()
+//@   ensures !ok && old(vm.Width) != 0 ==> old(len(vm.Vps)) == 0 || old(len(vm.Sps)) == 0 || old(len(vm.Pps)) == 0
+//@ func (sps *H265RawSPS) DecodeString(b64 string) (err error)
+//@   trusted
+//@   requires sps != nil && sps5Zeroed(sps)
+//@   modifies all()
